@@ -42,6 +42,14 @@ def make_results(patterns=None):
             r = t.evaluate()
             basic.append((kind, tag, r))
             yield kind, tag, r
+    # undefined comparisons: NaN on one side only (the t value is NaN, the bin fails)
+    refn = datasets([1.0, 2.0, 3.0], [0.1, 0.1, 0.1])
+    othn = datasets([1.0, float('nan'), 3.0], [0.1, 0.1, 0.1])
+    for kind, t in (('student', TestStudent(refn, othn, name='st-nan', ndf=20)), ('chi2', TestChi2(refn, othn, name='chi-nan')),
+                    ('bonferroni', TestBonferroni(name='bo-nan', test=TestStudent(refn, othn, name='stb-nan', ndf=20), alpha=0.05)),
+                    ('holm', TestHolmBonferroni(name='ho-nan', test=TestStudent(refn, othn, name='sth-nan', ndf=20), alpha=0.05))):
+        r = t.evaluate()
+        yield kind, 'nan', r
     # metadata
     for same in (True, False):
         md = TestMetadata({'a': {'code': 'T4', 'v': 1}, 'b': {'code': 'T4', 'v': 1 if same else 2}}, name=f'md{int(same)}', labels={'kind': 'md'})
